@@ -22,11 +22,13 @@ def run (kind : String) (fs : List String) : Option (String × String) :=
                     else if mode == "dep2-invalid" then .invalid else if mode == "aplog-missing" then .missing else .ok
     -- kinds without the dependency cannot fail that way: the harness leaves them usable
     let p : Pol := match k with
-      | .acl | .rl => ⟨k, .ok, .ok⟩
-      | .emtls | .waf => ⟨k, d1, d2⟩
-      | _ => ⟨k, d1, .ok⟩
+      | .acl | .rl => { kind := k, dep1 := .ok, dep2 := .ok }
+      | .emtls => { kind := k, dep1 := d1, dep2 := d2 }
+      | .waf => { kind := k, dep1 := d1, dep2 := d2,
+                  extra := [if mode == "bundle-missing" then .missing else .ok, if mode == "logbundle-missing" then .missing else .ok] }
+      | _ => { kind := k, dep1 := d1, dep2 := .ok }
     let table : String → Option Pol := fun r =>
-      if r == "nb1" then some ⟨.rl, .ok, .ok⟩ else if r == "nb2" then some ⟨.acl, .ok, .ok⟩
+      if r == "nb1" then some { kind := .rl, dep1 := .ok, dep2 := .ok } else if r == "nb2" then some { kind := .acl, dep1 := .ok, dep2 := .ok }
       else if r == "target" then (if mode == "policy-missing" then none else some p) else none
     let nb := kv fs "nb"
     let refs := (if nb == "before" || nb == "both" then ["nb1"] else []) ++ ["target"] ++ (if nb == "after" || nb == "both" then ["nb2"] else [])
